@@ -22,7 +22,7 @@ class Runtime:
         self.trace = []           # (comp, method) in call order
         self.on_eval = None       # callback(comp_name, method, inputs dict)
         self.problem = None
-        self.last_compute = {}    # comp -> {out: physical array}
+        self.last_out = {}        # output name -> physical array of the stub's last real compute
         self.enabled = True
 
     def hit(self, comp, method):
@@ -165,6 +165,8 @@ class AffStub(om.ExplicitComponent):
             if k == 'nan':
                 y = y * np.nan
             outputs[o['name']] = y.reshape(o['shape'])
+            if not np.iscomplexobj(y):
+                rt.last_out[o['name']] = np.array(y, dtype=float)
         if discrete_inputs is not None and discrete_outputs is not None:
             for di, do in zip(s.get('discrete_in', []), s.get('discrete_out', [])):
                 discrete_outputs[do['name']] = discrete_inputs[di['name']]
